@@ -1962,7 +1962,8 @@ meta:
 				start = l->start + len + 1;
 				len = l->start + l->len - start;
 
-				if (char_is_line_ending(source[start + len])) {
+				if (len && char_is_line_ending(source[start + len - 1])) {
+					// Drop the line's own line ending (not a character of the value)
 					len--;
 				}
 
